@@ -2069,7 +2069,14 @@ func (_setElem1) exec(vm *vm) {
 	propName := vm.stack[vm.sp-2]
 	val := vm.stack[vm.sp-1]
 
-	obj.setOwn(propName, val, true)
+	// property definition of an object literal with a computed key: CreateDataPropertyOrThrow, not [[Set]]
+	// (an accessor of the same name defined earlier in the literal is replaced, its setter is not called)
+	obj.defineOwnProperty(propName, PropertyDescriptor{
+		Value:        val,
+		Writable:     FLAG_TRUE,
+		Enumerable:   FLAG_TRUE,
+		Configurable: FLAG_TRUE,
+	}, true)
 
 	vm.sp -= 2
 	vm.pc++
@@ -2088,7 +2095,12 @@ func (_setElem1Named) exec(vm *vm) {
 		Value:        funcName("", propName),
 		Configurable: FLAG_TRUE,
 	}, true)
-	base.set(propName, val, receiver, true)
+	base.defineOwnProperty(propName, PropertyDescriptor{
+		Value:        val,
+		Writable:     FLAG_TRUE,
+		Enumerable:   FLAG_TRUE,
+		Configurable: FLAG_TRUE,
+	}, true)
 
 	vm.sp -= 2
 	vm.pc++
